@@ -287,7 +287,7 @@ def rt_case(rule, path, whole_only=False):
         def env_for(p):
             out = []
             for fk in run.fkeys:
-                out.append(env_entry(fk, run.FF._filter_cache[fk][0], p))
+                out.append(env_entry(fk, G.filter_handler(run.FF, fk), p))
             return out
         run.env_for = env_for
     ans = run.add(rule, ['GET'])
